@@ -48,6 +48,11 @@ FAMILIES = {
     'named-args': lambda d, nl: '#' + ('f(k: ' + nl) * d + 'x' + (nl + ')') * d,
     'content-arg': lambda d, nl: '#' + ('f(' + nl + '[#') * d + 'x' + (']' + nl + ')') * d,
     'list': lambda d, nl: ''.join('  ' * i + '- a\n' for i in range(d)) + '  ' * d + 'x',
+    # constructs that get optional delimiters, with an operand that opens a new code / markup scope holding the same construct again
+    'binary-in-block': lambda d, nl: '#' + ('{ 1 + ' + nl) * d + '{ 1 }' + (nl + ' }') * d,
+    'closure-with-binary-body': lambda d, nl: '#let f = ' + ('x => 1 + (' + nl) * d + 'x' + (nl + ')') * d,
+    'chain-with-content': lambda d, nl: ('#a.b().c[' + nl) * d + 'x' + (nl + ']') * d,
+    'for-over-binary': lambda d, nl: '#{ ' + ('for i in 1 + { ' + nl) * d + '1' + (nl + ' } {}') * d + ' }',
     'strong-emph': lambda d, nl: ''.join('*' if i % 2 == 0 else '_' for i in range(d)) + 'x' + ''.join('*' if i % 2 == 0 else '_' for i in reversed(range(d))),
 }
 
@@ -185,7 +190,7 @@ def confirm_growth(S, variant, widths=(80,)):
             r = S.driver.call('format', hexs(src), width, 2, 0)
             dt = time.time() - t
             times[d] = dt
-            if r[0] != 'ok' or dt > 20:
+            if r[0] != 'ok' or dt > 1.5:
                 break
         ds = sorted(times)
         for a, b in zip(ds, ds[1:]):
